@@ -32,4 +32,11 @@ SPECS = {
                 relevant=r"not the total of any set|non-integral|did not complete"),
     "C16": spec("C16", "All adder variants agree with a plain number for Store/Reset/SumAndReset", "adder", adder.gen_c16, AMODEL,
                 relevant=r"single number|did not complete"),
+    "C19": dict(title="The mutex-based queue and adder are linearizable over their whole API",
+                corr=conc.merge_corr([conc.make_corr("C19", "queue", queue.gen_c19_queue, r"not linearizable|left the queue|lost|did not complete|quiescent"),
+                                      conc.make_corr("C19", "adder", adder.gen_c19_adder, r"not linearizable|SumAndReset results|single number|did not complete")]),
+                model_note="Queue/MutexModel.v (mutexLinkedQueue.go) and Adder/SimpleModel.v mutex_adder (mutexAdder.go): lock operations are the logged accesses, the critical-section body is a silent plain step",
+                trusted=T1_TRUST + ["sync.RWMutex modelled as {writer flag, reader count} without Go's writer preference (which only removes behaviours)"],
+                partial=[], replay=lambda data: conc.replay("C19", data, data.get("violations", data.get("mismatches", [{}]))[0].get("driver", "queue") if (data.get("violations") or data.get("mismatches")) else "queue"),
+                replay_how="each entry: scenario + scheduler choice list + driver name; `./check C19 --replay <file>`"),
 }
